@@ -233,7 +233,9 @@ def run_hex(run):
             else:
                 cx.count(("hex-rej", ty, x), True, "val:hex:%s:rejected:%s" % (ty, r[1]))
             case = {"type": d, "value_hex": hexs(x), "got": r, "oracle": want, "law": "hex_accept_iff"}
-            if (r[0] == "ok") != want:
+            if b"\0" in x and r[0] != "ok":
+                pass        # refused (repaired tree, fixes/F423.diff) or the part before the NUL does not match: both fine
+            elif (r[0] == "ok") != want:
                 cx.fail("val", "a %s value is not accepted exactly when its lower-cased form matches the pattern of the typedef" % ty, case)
             elif r[0] == "ok" and unhex(r[1]) != low:
                 cx.fail("val", "the canonical value of a %s is not the lower-cased value" % ty, dict(case, law="hex_canonical_lowercase"))
